@@ -1130,9 +1130,15 @@ func doCheck(prop, tier string) int {
 
 	// evidence
 	ev := buildEvidence(prop, tier, seed, plan, results, p, reruns, diverged, minimisations, len(viols), time.Since(t0), runWall)
-	os.MkdirAll(filepath.Join(verifDir, "evidence"), 0o755)
+	evDir := filepath.Join(verifDir, "evidence")
+	if os.Getenv("VERIF_REPO") != "" {
+		// a run against another tree (a seeded change) must not replace the
+		// evidence of the runs against /repo
+		evDir = filepath.Join(verifDir, "bin", "evidence-other-tree")
+	}
+	os.MkdirAll(evDir, 0o755)
 	eb, _ := json.MarshalIndent(ev, "", " ")
-	if err := os.WriteFile(filepath.Join(verifDir, "evidence", prop+".json"), eb, 0o644); err != nil {
+	if err := os.WriteFile(filepath.Join(evDir, prop+".json"), eb, 0o644); err != nil {
 		die2("write evidence: %v", err)
 	}
 	if tier == "thorough" && os.Getenv("VERIF_REPO") == "" {
